@@ -205,6 +205,11 @@ inductive StickyOp | suse | sclose | sdel | sopen
 inductive Cmd
   /-- create / replace a server instance -/
   | inst (name : String) (i : Inst)
+  /-- `SetTokenTTL(d)`: new TTL, and the call-state cache is REBUILT at the default size (entries
+  dropped), so no entry cached under the old TTL can outlive a token under the new one -/
+  | setTtl (name : String) (ttl : Int)
+  /-- `SetCallStateCacheEntries(n)`: a fresh, empty cache of capacity `n` -/
+  | setCache (name : String) (max : Int)
   /-- a pure question about the byte-level functions (answer computed while parsing) -/
   | query (answer : String)
   /-- POST /{method}/init -/
@@ -291,8 +296,18 @@ def applySticky (w : World) (op : StickyOp) (iname : String) (who : Ident) (sess
       | .opened, none => (w, showU r.2)      -- the server minted nothing: the outputs will differ
       | _, _ => (w.setInst iname r.1, showU r.2)
 
+/-- `defaultCallStateCacheEntries` -/
+def defaultCacheEntries : Int := 4096
+
+def applyReconf (w : World) (name : String) (f : Inst → Inst) : World × String :=
+  match w.inst? name with
+  | none => (w, "bad-op")
+  | some inst => (w.setInst name { f inst with cache := [] }, "ok")
+
 def apply (w : World) : Cmd → World × String
   | .inst name i => (w.setInst name { i with cache := [] }, "ok normkey=" ++ hexOfBytes (normKey i.key))
+  | .setTtl name ttl => applyReconf w name fun i => { i with ttl := ttl, cacheMax := defaultCacheEntries }
+  | .setCache name max => applyReconf w name fun i => { i with cacheMax := max }
   | .query a => (w, a)
   | .init iname who method limit sess now env => applyInit w iname who method limit sess now env
   | .cont iname req env => applyCont w iname req env
@@ -380,6 +395,8 @@ def parse (ws : List String) : Option Cmd :=
   | ["ikey", ident] => (parseIdent ident).map fun who => .query (hexArg (identKey who) ++ " " ++ hexArg (identKey who))
   | ["norm", k] => (parseHexArg k).map fun key => .query (hexArg (normKey key))
   | ["advance", n] => if n.toNat?.isSome then some (.query "ok") else none
+  | ["setttl", name, t] => t.toInt?.map fun ttl => .setTtl name ttl
+  | ["setcache", name, n] => n.toInt?.map fun m => .setCache name m
   | "init" :: iname :: ident :: method :: rest => parseInit iname ident method rest
   | "cont" :: iname :: ident :: method :: rest => parseCont iname ident method rest
   | "seal" :: kind :: iname :: ident :: rest => parseSeal kind iname ident rest
